@@ -3,6 +3,7 @@ package main
 import (
 	"bytes"
 	"context"
+	"crypto/sha1"
 	"encoding/json"
 	"fmt"
 
@@ -29,12 +30,19 @@ func accPktEvent(i int, raw []byte, cand map[int]bool) M {
 	pl := []int{}
 	if hp && off < 188 && cand[pid] {
 		pl = ints(raw[off:])
+	} else if hp && off < 188 {
+		pl = ints(sha1sum(raw[off:])[:4]) // the payload's identity (duplicate test); its bytes only matter on the PIDs that may carry PSI
 	}
 	n := 0
 	if hp && off < 188 {
 		n = 188 - off
 	}
 	return M{"ev": "pkt", "i": i, "pid": pid, "cc": int(raw[3] & 15), "pusi": raw[1]&0x40 != 0, "hp": hp, "tei": raw[1]&0x80 != 0, "disc": disc, "pl": pl, "n": n}
+}
+
+func sha1sum(b []byte) []byte {
+	h := sha1.Sum(b)
+	return h[:]
 }
 
 func feedAcc(sid string, stream []byte, cand map[int]bool, rec *recorder) {
@@ -83,7 +91,7 @@ func feedAcc(sid string, stream []byte, cand map[int]bool, rec *recorder) {
 			for _, p := range d.PAT.Programs {
 				progs = append(progs, []int{int(p.ProgramNumber), int(p.ProgramMapID)})
 			}
-			rec.ev(M{"ev": "pat", "progs": progs})
+			rec.ev(M{"ev": "pat", "pid": int(d.PID), "progs": progs})
 		}
 	}
 	rec.ev(M{"ev": "hang"})
